@@ -720,6 +720,28 @@ impl VSys
         true
     }
 
+    /* like `rmdir`: only an empty directory goes away */
+    pub fn user_rmdir(&self, path : &str) -> bool
+    {
+        let mut fs = self.lock();
+        let p = norm(path);
+        match fs.disk.nodes.get(&p)
+        {
+            Some(Node::Dir) if fs.disk.children(&p).len() == 0 =>
+            {
+                fs.disk.nodes.remove(&p);
+                fs.log_event(Who::User, Op::RemoveDir, path, "", true, "", None, None);
+                true
+            },
+            _ => false,
+        }
+    }
+
+    pub fn is_dir_now(&self, path : &str) -> bool
+    {
+        self.lock().disk.is_dir(&norm(path))
+    }
+
     pub fn user_mkdirs(&self, path : &str)
     {
         let mut fs = self.lock();
@@ -1044,7 +1066,14 @@ impl System for VSys
         let mut results = vec![];
         for (step_index, line) in command_script.lines.iter().enumerate()
         {
-            results.push(Ok(crate::verif::model::run_script_line(self, line, step_index)));
+            let output = crate::verif::model::run_script_line(self, line, step_index);
+            if output.err == crate::verif::model::CANNOT_EXECUTE
+            {
+                // like the real system: the error ends the script
+                results.push(Err(SystemError::CommandExecutationFailed("cannot start the command".to_string())));
+                break;
+            }
+            results.push(Ok(output));
         }
 
         {
